@@ -500,10 +500,24 @@ func clipS(s string) string {
 	return s
 }
 
+var (
+	longKC     *consumer.KafkaConsumer
+	longSchema *consumerpb.AntreaFlowMsg
+	longTopic  string
+	longUses   int
+)
+
 // checkConsumer runs the consumer-side decoder (delimited mode) and reads the values back.
 func checkConsumer(payload []byte, topic string, w want) string {
-	schema := &consumerpb.AntreaFlowMsg{}
-	kc := consumer.NewKafkaConsumer(consumer.ConsumerInput{KafkaTopic: topic, KafkaProtoSchema: schema, MsgDelimitWithLen: true})
+	// one consumer decodes a stream of payloads (as a real consumer does): it is kept across payloads of a topic
+	// and replaced now and then; every payload must be recovered on its own, whatever was decoded before it
+	if longKC == nil || longTopic != topic || longUses >= 200 {
+		longSchema = &consumerpb.AntreaFlowMsg{}
+		longKC = consumer.NewKafkaConsumer(consumer.ConsumerInput{KafkaTopic: topic, KafkaProtoSchema: longSchema, MsgDelimitWithLen: true})
+		longTopic, longUses = topic, 0
+	}
+	longUses++
+	schema, kc := longSchema, longKC
 	if err := kc.DecodeAndPrintMsg(&sarama.ConsumerMessage{Topic: topic, Value: payload}); err != nil {
 		return "DecodeAndPrintMsg: " + err.Error()
 	}
